@@ -73,6 +73,8 @@ class Sess:
             self.conv = e2e.Conv(peer, env)
             self.kw0 = e2e.client_kwargs(peer.state, with_engine_id=not peer.discover) if peer.kind == "v3" else None
         self.iters = []
+        self.cursor = {}      # iterator index -> arcs the next request of that iterator must name (when tracked)
+        self.base_len = {}    # iterator index -> number of arcs of its base
         self.events = []      # model event strings
         self.expect = []      # implementation observations in the model's rendering
         self.records = []     # dicts for the oracles
@@ -132,6 +134,10 @@ class Sess:
         if r[0] == "ok":
             self.iters.append(r[1])
             self.expect.append("ok")
+            try:
+                self.base_len[len(self.iters) - 1] = len(values.arcs_norm(oid))
+            except ValueError:
+                pass
             return len(self.iters) - 1
         self.expect.append("pyerr " + r[1])
         return None
@@ -158,7 +164,8 @@ class Sess:
             r = self.conv.send("refresh")
             call = "refresh"
         rec = {"kind": "send", "session": self.label, "op": op, "arg": arg, "iter": it, "result": r,
-               "datagrams": list(self.conv.raw or []), "req": self.conv.req, "expect_bt": self.last_bt}
+               "datagrams": list(self.conv.raw or []), "req": self.conv.req, "expect_bt": self.last_bt,
+               "expect_oid": self.cursor.get(it) if it is not None else None}
         self.records.append(rec)
         # a failed send reveals no ids: assume the common 4-octet case (a shorter random id could
         # make a borderline request fit, see compare())
@@ -288,6 +295,9 @@ def default_peers():
     ps.append(e2e.Peer("v3", auth=1, priv=1, auth_kt="localized", priv_kt="password"))
     ps.append(e2e.Peer("v3", auth=2, priv=1, auth_kt="master", priv_kt="localized"))
     ps.append(e2e.Peer("v3", auth=2, priv=2, engine_id=bytes(range(1, 33)), user="u" * 32))
+    # engine ids beyond the RFC 3411 bound of 32 octets (an agent may announce anything): long-form lengths everywhere
+    ps.append(e2e.Peer("v3", auth=1, priv=0, engine_id=bytes(range(128)), auth_kt="localized"))
+    ps.append(e2e.Peer("v3", auth=2, priv=2, engine_id=bytes(255) + b"\x01" * 45, auth_kt="localized", priv_kt="localized"))
     ps.append(e2e.Peer("v3", auth=0, priv=0, engine_id=b"\x80\x00\x00\x00\x01", user=""))
     return ps
 
@@ -342,7 +352,12 @@ def run_history(env, rng, peers, n_sessions, steps, oversize_bias=0.08, reply_bi
                 s.peer.state.boots = rng.choice([0, 1, 5, 2 ** 31 - 1])
                 s.peer.state.time = rng.choice([0, 1000, 2 ** 31 - 1, rng.getrandbits(31)])
             if op in ("getnext", "getbulk"):
-                name = tuple(req["varbinds"][0][0]) + (rng.randrange(1, 5),)
+                cur = tuple(req["varbinds"][0][0])
+                name = cur + (rng.randrange(1, 5),)
+                base_len = s.base_len.get(it, len(cur))
+                if len(cur) > base_len + 1 and rng.random() < 0.5:
+                    # a later sibling higher up: greater, inside the subtree, but SHORTER than the cursor
+                    name = cur[:base_len + 1][:-1] + (cur[base_len] + 1,)
                 vbs = [ber.varbind(name, ber.INT(rng.randrange(100)))]
             elif op == "refresh":
                 vbs = []
@@ -367,6 +382,11 @@ def run_history(env, rng, peers, n_sessions, steps, oversize_bias=0.08, reply_bi
             if v3 and s.last_bt is not None and len(dgs) == r["consumed"] and not (
                     r["result"][0] == "exc" and r["result"][1] == "BlockingIOError"):
                 s.last_bt = bt
+            if op in ("getnext", "getbulk") and it is not None:
+                if r["result"][0] == "ok" and len(dgs) == r["consumed"]:
+                    s.cursor[it] = name          # accepted: the iterator's next request must name exactly this OID
+                else:
+                    s.cursor.pop(it, None)
         elif rng.random() < 0.3:
             s.recv(op, [], it=it)
     return sess
